@@ -841,10 +841,13 @@ func (r Stack) Reset() {
 reset is a private method called by [Stack.Reset].
 */
 func (r *stack) reset() {
-	var ct int = 0
-	for i := r.ulen(); i > 0; i-- {
-		ct++
-		r.remove(i - 1)
+	r.lock()
+	defer r.unlock()
+
+	// keep only the configuration slice; every
+	// user slice (nil ones included) is dropped.
+	if r.len() > 1 {
+		*r = (*r)[:1]
 	}
 }
 
